@@ -6,7 +6,8 @@ CHECK = {
     "level": "model_checking",
     "technique": "stateless model checking of the real step scheduler (machine-instrumented at check time) under a cooperative scheduler with virtual time: all non-preemptive schedules of every program of a finite family, preemption-bounded schedules of a sharp list",
     "rule": "",
-    "harnesses": [H("e1", sub="C05", **_E1)],
+    "harnesses": [H("e1", sub="C05", **_E1),
+                  H("c05real", shards={"quick": "ncpu", "thorough": "ncpu"})],
     "assumptions": [],
 }
 TEXT = {"engine": "E1-coop", "design_ref": "DESIGN.md §3.1, §5 C05",
